@@ -6,14 +6,14 @@ corr(): translator validation (generated defs on Float vs the Python methods), w
 vs the public wrappers (scalars, arrays, values below 1, argument arrays before/after), bisection
 model vs `_findRcrit`; direct oracle: the C15 predicates on the real functions, closed forms against
 numerical quadrature of the spheroid area and capacitance integrals."""
-import importlib.util, math, os, sys
+import importlib.util, json, math, os, sys, traceback
 import numpy as np
 import vlib
 from vlib import Result, enc_list, f2b, Toks, close
 
 PROP = 'C15'
 META = {
-    'level_text': 'Lean 4 theorems about definitions REGENERATED on every run from ShapeFactors.py by a concolic tracer (inner formulas and …Min constants of needle/plate/cuboidal/sphere) and about hand models of the public wrappers and of the _findRcrit bisection: unit-volume semi-axes with the requested aspect ratio; thermodynamic factor = spheroid (cuboid) area / equal-volume-sphere area and kinetic factor = spheroid capacitance / equal-volume radius as identities with the textbook closed forms (generic ordered field with the transcendental sub-terms as atoms, and over the reals with Mathlib rpow/arcsin/arccos/log, no atom hypotheses left); wrappers return the …Min constants at ar <= 1; continuity at 1 <=> …Min = formula(1), and over the reals ContinuousAt at 1 of all twelve public factor functions and of the semi-axes (needle/plate thermodynamic and kinetic factor tend to 1 via asin e/e -> 1 and (log(1+e)-log(1-e))/e -> 2, cuboid kinetic factor tends to 0.968); eq.-radius factor strictly increasing; scalar call = array call element-wise; clamp leaves the argument unchanged; bisection result / iteration-cap / fallback specification, bracket sign and halving invariants by induction, scalar-aspect closed form is an exact root. Generated defs and models are tied to the code by differential correspondence on every run; the property predicates are also evaluated directly on the real functions, the closed forms against scipy quadrature of the area and capacitance integrals.',
+    'level_text': 'Lean 4 theorems about definitions REGENERATED on every run from ShapeFactors.py by a concolic tracer (inner formulas and …Min constants of needle/plate/cuboidal/sphere) and about hand models of the public wrappers and of the _findRcrit bisection: unit-volume semi-axes with the requested aspect ratio; thermodynamic factor = spheroid (cuboid) area / equal-volume-sphere area and kinetic factor = spheroid capacitance / equal-volume radius as identities with the textbook closed forms (generic ordered field with the transcendental sub-terms as atoms, and over the reals with Mathlib rpow/arcsin/arccos/log, no atom hypotheses left); wrappers return the …Min constants at ar <= 1; continuity at 1 <=> …Min = formula(1), and over the reals ContinuousAt at 1 of all twelve public factor functions and of the semi-axes (needle/plate thermodynamic and kinetic factor tend to 1 via asin e/e -> 1 and (log(1+e)-log(1-e))/e -> 2, cuboid kinetic factor tends to 0.968); eq.-radius factor strictly increasing; scalar call = array call element-wise; clamp leaves the argument unchanged; bisection result / iteration-cap / fallback specification, bracket sign and halving invariants by induction, scalar-aspect closed form is an exact root; setter state machine of ShapeFactor (constructor, setAspectRatio, setPrecipitateShape / set<X>Shape, setSpherical): after ANY history the object matches the last shape and the last aspect-ratio specification, the active search of the public findRcrit is the closed form after a number and the bisection after a function, and its result obeys the root specification (by induction over the history). Generated defs and models are tied to the code by differential correspondence on every run (the critical-radius search only through the PUBLIC findRcrit on objects reached through random setter histories, incl. PrecipitateParameters().shapeFactor; which search ran is observed by counting the evaluations of the aspect-ratio function); the property predicates are also evaluated directly on the real functions, the closed forms against scipy quadrature of the area and capacitance integrals.',
     'level_note': 'Monitored only (oracle, not proved): thermodynamic and kinetic factor of needle and plate increase with ar (grids on [1,100] and 1+10^-k); closed forms = the area / capacitance integrals (scipy.integrate.quad, rtol 1e-7); a bracketed root of a continuous objective is found before the 100-iteration cap (oracle on random aspect-ratio functions; the Lean theorem gives the bracket of width (Rmax-Rs)/2^n with a sign change, not convergence in 100 steps). The bracket invariant needs f(RcritSphere) != 0: with an exact root at the lower end the code walks off it and ends in the fallback, which is then that root (counter-example kept in Props/C15.lean). Trusted: Lean kernel + Mathlib, axioms propext/Classical.choice/Quot.sound; the tracer tools/py2lean/sym.py (every generated def re-validated numerically on each run); hand models equal the NumPy code as far as this run compared them; exact-field / real arithmetic instead of IEEE doubles (oracle continuity tolerance 1e-7 relative + 3*10^-k).',
     'technique': 'Lean 4 proof over generated definitions (py2lean) + hand models + differential correspondence + quadrature oracle',
     'design_ref': 'DESIGN.md section 6, C15',
@@ -30,7 +30,8 @@ ASSUMPTIONS = [
     'theorems are over exact ordered-field / real arithmetic; IEEE doubles compared with rtol 1e-9 (looser where the source formula cancels near ar = 1)',
     'the cube-root / power atoms obey cbrt(x)^3 = x and x^(2/3) = cbrt(x)^2 (discharged for the real-number instance)',
 ]
-TRUSTED = ['tools/py2lean/sym.py concolic tracer and emitter (every generated def is re-validated numerically on each run)',
+TRUSTED = ['setter semantics of ShapeFactor as modelled in KawinV.SFState (compared on every run through random histories)',
+           'tools/py2lean/sym.py concolic tracer and emitter (every generated def is re-validated numerically on each run)',
            'np.atleast_1d / boolean-mask assignment / np.squeeze semantics as modelled in KawinV.Shape (compared on every run)']
 
 SHAPES = ['needle', 'plate', 'cuboid', 'sphere']
@@ -333,63 +334,169 @@ def chk_wrapper(SF, args):
     return res
 
 
-def run_bisect(SF, args):
-    sf = SF.ShapeFactor()
-    k, p0, p1, p2 = args['kind'], args['p0'], args['p1'], args['p2']
-    if args.get('scalar_ar'):
-        sf.setPrecipitateShape(CLS_NAME[args['shape']], p0)
-    else:
-        sf.setPrecipitateShape(CLS_NAME[args['shape']], arfun(k, p0, p1, p2))
-    sf.tol = args['tol']
-    calls = []
-    real_tf = sf.thermoFactor
-
-    def counting(R):
-        v = real_tf(R)
-        calls.append((float(R), float(v)))
-        return v
-    sf.thermoFactor = counting
-    r = float(sf.findRcrit(args['Rs'], args['Rmax']))
-    sf.thermoFactor = real_tf
-    return sf, r, calls
-
-
 CLS_NAME = {'needle': 'needle', 'plate': 'plate', 'cuboid': 'cubic', 'sphere': 'sphere'}
+_PP = [None]
 
 
-def chk_bisect(SF, args):
-    sf, r, calls = run_bisect(SF, args)
-    Rs, Rmax, tol = args['Rs'], args['Rmax'], args['tol']
-    obj = lambda R: R / (Rs * float(sf.thermoFactor(R))) - 1
-    out = []
-    if args.get('scalar_ar'):
-        if abs(obj(r)) > 1e-14:
-            out.append(('rcrit-scalar-not-root', 'findRcrit with a scalar aspect ratio is not a root of R = Rs*thermoFactor', obj(r), 0.0))
-        return out
-    iters = len(calls) - 3
-    fmin, fmax = obj(Rs), obj(Rmax)
-    if iters >= 100:
-        if r != Rs or iters != 100:
-            out.append(('bisect-cap', 'after the iteration cap the fallback RcritSphere must be returned (100 iterations)', [r, iters], [Rs, 100]))
-        if fmin * fmax < 0 and tol >= 1e-9:
-            out.append(('bisect-bracketed-root-not-found', 'objective changes sign on [Rs, Rmax] but the search hit the iteration cap and returned RcritSphere',
-                        {'r': r, 'f(Rs)': fmin, 'f(Rmax)': fmax}, '|f(r)| <= tol'))
+def load_pp():
+    """PrecipitateParameters of the tree under test (the object that owns a ShapeFactor in a simulation);
+    imports the kawin package (pycalphad, ~12 s)"""
+    if _PP[0] is None:
+        import warnings
+        vlib.use_repo()
+        with warnings.catch_warnings():
+            warnings.simplefilter('ignore')
+            from kawin.precipitation import PrecipitateParameters
+        _PP[0] = PrecipitateParameters
+    return _PP[0]
+
+
+# ---- setter histories: the PUBLIC findRcrit on objects reached through constructor + setter calls.
+# spec: ['S', c] scalar | ['F', kind, p0, p1, p2] function of the radius (arfun)
+# ctor: ['ctor', shape, spec] | ['default'] (= ShapeFactor()) | ['pp'] (PrecipitateParameters(...).shapeFactor)
+# op:   ['ar', spec] setAspectRatio | ['shape', shape, spec, via] | ['spherical']
+class Counted:
+    """an aspect-ratio function that records the radii it is called with (public observation of which search runs)"""
+    def __init__(self, kind, p0, p1, p2):
+        self.f = arfun(kind, p0, p1, p2)
+        self.R = []
+
+    def __call__(self, R):
+        self.R.append(R)
+        return self.f(R)
+
+
+def realize(spec):
+    return float(spec[1]) if spec[0] == 'S' else Counted(int(spec[1]), spec[2], spec[3], spec[4])
+
+
+def build_history(SF, case):
+    """returns (ShapeFactor object, realized last aspect-ratio spec, last shape, last spec)"""
+    ctor = case['ctor']
+    if ctor[0] == 'ctor':
+        last = realize(ctor[2]); shape, spec = ctor[1], ctor[2]
+        sf = SF.ShapeFactor(CLS_NAME[shape], last)
+    elif ctor[0] == 'default':
+        sf = SF.ShapeFactor(); last, shape, spec = 1.0, 'sphere', ['S', 1.0]
     else:
-        if not (abs(obj(r)) <= tol * (1 + 1e-9)):
-            out.append(('bisect-result-not-root', 'returned radius does not satisfy |r/(Rs*f(r)) - 1| <= tol', abs(obj(r)), tol))
-        if not (min(Rs, Rmax) <= r <= max(Rs, Rmax)):
-            out.append(('bisect-result-outside-bracket', 'returned radius outside [Rs, Rmax]', r, [Rs, Rmax]))
+        sf = load_pp()('beta').shapeFactor; last, shape, spec = 1.0, 'sphere', ['S', 1.0]
+    for op in case['ops']:
+        if op[0] == 'ar':
+            last = realize(op[1]); spec = op[1]
+            sf.setAspectRatio(last)
+        elif op[0] == 'shape':
+            last = realize(op[2]); shape, spec = op[1], op[2]
+            if op[3] == 'name':
+                sf.setPrecipitateShape(CLS_NAME[shape], last)
+            elif op[3] == 'NAME':
+                sf.setPrecipitateShape(CLS_NAME[shape].upper(), last)
+            else:
+                getattr(sf, SETTER[shape])(last)       # setNeedleShape / setPlateShape / setCuboidalShape
+        else:
+            sf.setSpherical(); last, shape, spec = 1.0, 'sphere', ['S', 1.0]
+    return sf, last, shape, spec
+
+
+def run_history(SF, case):
+    sf, last, shape, spec = build_history(SF, case)
+    sf.tol = case['tol']
+    r = float(sf.findRcrit(case['Rs'], case['Rmax']))
+    visited = list(last.R) if isinstance(last, Counted) else None      # radii the search evaluated
+    return sf, r, visited, shape, spec
+
+
+def chk_hist(SF, args):
+    sf, r, visited, shape, spec = run_history(SF, args)
+    Rs, Rmax, tol = args['Rs'], args['Rmax'], args['tol']
+    resid = lambda R: float(R) / (Rs * float(sf.thermoFactor(float(R)))) - 1
+    out = []
+    what = 'history %s + %s, last aspect ratio %s on %s' % (args['ctor'], args['ops'], spec, shape)
+    if spec[0] == 'S':
+        if not abs(resid(r)) <= 1e-13:
+            out.append(('findRcrit-scalar-not-root', 'findRcrit with a constant aspect ratio is not a root of R = Rs*thermoFactor(ar): ' + what, resid(r), 0.0))
+    else:
+        fmin, fmax = resid(Rs), resid(Rmax)
+        iters = len(visited) - 3
+        if fmin * fmax < 0 and tol >= 1e-9:
+            if not (abs(resid(r)) <= tol * (1 + 1e-9)) or not (min(Rs, Rmax) <= r <= max(Rs, Rmax)):
+                out.append(('findRcrit-bracketed-not-root',
+                            'objective changes sign on [Rs, Rmax] but findRcrit returned r with |r/(Rs*thermoFactor(ar(r))) - 1| > tol: ' + what,
+                            {'r': r, 'residual': resid(r), 'f(Rs)': fmin, 'f(Rmax)': fmax, 'aspect-ratio evaluations': len(visited)}, '|residual| <= %g' % tol))
+        elif iters >= 100 and r != Rs:
+            out.append(('findRcrit-cap', 'iteration cap reached but the fallback RcritSphere was not returned: ' + what, r, Rs))
+    # the answer may only depend on the last shape and the last aspect-ratio specification
+    fresh = type(sf)(CLS_NAME[shape], realize(spec))
+    fresh.tol = tol
+    r2 = float(fresh.findRcrit(Rs, Rmax))
+    if r2 != r and not (math.isnan(r) and math.isnan(r2)):
+        out.append(('findRcrit-depends-on-history', 'findRcrit differs from a freshly constructed ShapeFactor(%s, same aspect ratio): ' % shape + what, r, r2))
     return out
 
 
 CHECKS = {'axes': chk_axes, 'quad': chk_quad, 'at_one': chk_at_one, 'continuity': chk_continuity,
-          'monotone': chk_monotone, 'wrapper': chk_wrapper, 'bisect': chk_bisect}
+          'monotone': chk_monotone, 'wrapper': chk_wrapper, 'hist': chk_hist}
 
 
-def apply_check(res, SF, name, args, short=None):
+# ------------------------------------------------------------------ robustness: nothing aborts corr()
+THIS_FILE = os.path.abspath(__file__)
+
+
+def raised_in_impl(e):
+    """True when the exception comes out of the code under test: walking the traceback from the innermost
+    frame outwards, the first frame that belongs either to the tree under test or to this harness decides"""
+    repo = os.path.realpath(vlib.REPO) + os.sep
+    for fr in reversed(traceback.extract_tb(e.__traceback__)):
+        fn = os.path.realpath(fr.filename)
+        if fn.startswith(repo):
+            return True
+        if fn == os.path.realpath(THIS_FILE):
+            return False
+    return False
+
+
+class Guard:
+    """every case runs inside `with guard(what, case):` — an exception of the implementation becomes a
+    violation with the input as replay, a harness exception is collected (re-raised at the end of corr()
+    only if no violation was found)"""
+    def __init__(self, res):
+        self.res, self.errors = res, []
+
+    def __call__(self, what, case):
+        return _GuardCtx(self, what, case)
+
+    def finish(self):
+        if self.errors:
+            self.res.extra['harness_errors'] = self.errors[:5]
+            self.res.count('harness-errors', len(self.errors))
+            if not self.res.violations:
+                raise RuntimeError('%d harness error(s), first: %s\n%s' % (len(self.errors), self.errors[0]['what'], self.errors[0]['traceback']))
+
+
+class _GuardCtx:
+    def __init__(self, g, what, case):
+        self.g, self.what, self.case = g, what, case
+
+    def __enter__(self):
+        return self
+
+    def __exit__(self, et, e, tb):
+        if e is None or not isinstance(e, Exception):
+            return False
+        if raised_in_impl(e):
+            self.g.res.violate('raises:' + self.what, 'the code under test raised %s: %s' % (type(e).__name__, e), self.case,
+                               ''.join(traceback.format_exception_only(et, e)).strip(), 'no exception')
+        else:
+            self.g.errors.append({'what': self.what, 'case': vlib.jsonable(self.case),
+                                  'traceback': ''.join(traceback.format_exception(et, e, tb))[-1500:]})
+        return True
+
+
+def apply_check(res, guard, SF, name, args, short=None):
     """run one oracle predicate; violations carry what replay needs"""
-    for key, what, obs, req in CHECKS[name](SF, args):
-        res.violate(key, what, {'chk': name, 'args': short if short is not None else args}, obs, req)
+    case = {'chk': name, 'args': short if short is not None else args}
+    with guard('%s:%s' % (name, args.get('shape', '')), case):
+        for key, what, obs, req in CHECKS[name](SF, args):
+            res.violate(key, what, case, obs, req)
 
 
 # ------------------------------------------------------------------ case generators
@@ -427,34 +534,111 @@ def gen_wrapper_case(rng):
     return {'shape': sh, 'fn': fn, 'container': cont, 'vals': vals}
 
 
-def gen_bisect_case(rng):
-    sh = rng.choice(['needle', 'needle', 'needle', 'plate', 'plate', 'plate', 'cuboid', 'cuboid', 'sphere'])
+def gen_spec(rng, Rs, force=None):
+    t = force or rng.choice(['S', 'F', 'F'])
+    if t == 'S':
+        return ['S', rng.choice([0.5, 1.0, 1.2, 2.3, 3.0, 7.0, 40.0, math.exp(rng.uniform(0, math.log(100)))])]
     kind = rng.choice([0, 1, 1, 2, 2, 3])
-    Rs = 10 ** rng.uniform(-10, -8)
-    Rmax = Rs * rng.choice([1.05, 1.3, 2.0, 3.0, 5.0, 10.0, 30.0]) * rng.uniform(1.0, 1.2)
     if kind == 0:
-        p0, p1 = rng.choice([0.5, 1.2, 2.3, 7.0, 40.0]), 0.0
+        p0, p1 = rng.choice([0.5, 1.2, 2.3, 7.0, 40.0]), 0.0          # a function that returns a constant
     elif kind == 1:
         p0, p1 = rng.choice([0.2, 0.95, 1.0, 1.5, 3.0]), rng.choice([0.1, 0.5, 1.0, 2.0])
     elif kind == 2:
         p0, p1 = rng.choice([0.7, 1.3, 2.3, 5.0]), rng.choice([0.5, 1.1, 2.0, -0.5])
     else:
         p0, p1 = rng.choice([0.5, 1.0, 2.0]), rng.choice([1.0, 5.0, 30.0])
+    return ['F', kind, p0, p1, Rs]
+
+
+def gen_hist_case(rng, allow_pp=True):
+    Rs = 10 ** rng.uniform(-10, -8)
+    Rmax = Rs * rng.choice([1.05, 1.3, 2.0, 3.0, 5.0, 10.0, 10.0, 30.0, 1e3, 1e4, 1e5]) * rng.uniform(1.0, 1.2)
     tol = rng.choice([1e-3, 1e-3, 1e-3, 1e-2, 1e-6, 1e-9])
-    return {'shape': sh, 'kind': kind, 'p0': p0, 'p1': p1, 'p2': Rs, 'tol': tol, 'Rs': Rs, 'Rmax': Rmax}
+    shp = lambda: rng.choice(['needle', 'needle', 'needle', 'plate', 'plate', 'plate', 'cuboid', 'cuboid', 'sphere'])
+    c = rng.random()
+    if c < 0.55:
+        ctor = ['ctor', shp(), gen_spec(rng, Rs)]
+    elif c < 0.85 or not allow_pp:
+        ctor = ['default']
+    else:
+        ctor = ['pp']
+    n = rng.choice([0, 1, 1, 1, 2, 2, 3, 5]) if ctor[0] == 'ctor' else rng.choice([1, 1, 1, 2, 2, 3, 5])
+    ops = []
+    for i in range(n):
+        force = None
+        if i == n - 1:
+            force = 'F' if rng.random() < 0.7 else 'S'        # mostly end on a radius-dependent aspect ratio
+        elif rng.random() < 0.5:
+            force = 'S'                                        # … after a constant one
+        o = rng.random()
+        if o < 0.45:
+            ops.append(['ar', gen_spec(rng, Rs, force)])
+        elif o < 0.92:
+            sh = shp()
+            via = rng.choice(['name', 'name', 'NAME', 'method']) if sh != 'sphere' else 'name'
+            ops.append(['shape', sh, gen_spec(rng, Rs, force), via])
+        else:
+            ops.append(['spherical'])
+    return {'ctor': ctor, 'ops': ops, 'tol': tol, 'Rs': Rs, 'Rmax': Rmax}
+
+
+def enc_spec(sp):
+    if sp[0] == 'S':
+        return '0 %s' % f2b(sp[1])
+    return '1 %d %s %s %s' % (sp[1], f2b(sp[2]), f2b(sp[3]), f2b(sp[4]))
+
+
+def enc_hist(c):
+    ctor = c['ctor']
+    t = ['c15.hist', f2b(c['tol']), f2b(c['Rs']), f2b(c['Rmax'])]
+    if ctor[0] == 'ctor':
+        t += ['0', str(SID[ctor[1]]), enc_spec(ctor[2])]
+    elif ctor[0] == 'default':
+        t += ['0', '3', enc_spec(['S', 1.0])]
+    else:
+        t += ['1']
+    t.append(str(len(c['ops'])))
+    for op in c['ops']:
+        if op[0] == 'ar':
+            t += ['0', enc_spec(op[1])]
+        elif op[0] == 'shape':
+            t += ['1', str(SID[op[1]]), enc_spec(op[2])]
+        else:
+            t += ['2']
+    return ' '.join(t)
+
+
+def hist_kind(c):
+    """summary of the history for the histogram: sequence of S/F specifications"""
+    seq = [c['ctor'][2][0] if c['ctor'][0] == 'ctor' else 'S']
+    for op in c['ops']:
+        seq.append('S' if op[0] == 'spherical' else (op[1][0] if op[0] == 'ar' else op[2][0]))
+    return seq
 
 
 # ------------------------------------------------------------------ correspondence + oracle
 def corr(ctx, oracle_only=False, scale=1):
+    with np.errstate(all='ignore'):          # aspect ratios far outside [1, 100] reach the formulas in wide brackets
+        return _corr(ctx, oracle_only, scale)
+
+
+def _corr(ctx, oracle_only=False, scale=1):
     res = Result()
     res.rule = ('(A) generated defs: 4 shapes x aspect ratios log-uniform/uniform on [1+1e-6, 100] + fixed points; '
                 '(B) public wrappers: 4 shapes x {eqRadiusFactor, thermoFactor, kineticFactor, normalRadii} x container '
                 '(float/int ndarray, list, 0-d, python/numpy scalar, 2-d) x values below 1 / at 1 / 1+10^-k / up to 100 / NaN; '
-                '(C) _findRcrit: 4 shapes x 4 aspect-ratio function families x bracket width x tol; '
+                '(C) PUBLIC ShapeFactor.findRcrit on objects reached through setter histories: constructor (shape, scalar|function) / '
+                'ShapeFactor() / PrecipitateParameters().shapeFactor, then 0-5 calls of setAspectRatio / setPrecipitateShape(name|NAME) / '
+                'set<X>Shape / setSpherical with scalar or function (4 families) aspect ratios, bracket width 1.05..1e5, tol 1e-2..1e-9; '
                 '(D) grids on [1,100] and 1+10^-k, k=1..15, quadrature at random ratios. '
-                'non-trivial = aspect ratio > 1 involved (A,B,D) / more than 0 iterations (C); distinct = full case tuple')
+                'non-trivial = aspect ratio > 1 involved (A,B,D) / history ends on a function and the search iterates (C); distinct = full case tuple')
     res.monitored = list(MONITORED)
-    SF = load()
+    guard = Guard(res)
+    try:
+        SF = load()
+    except Exception as e:
+        res.violate('module-does-not-load', 'ShapeFactors.py of the tree under test cannot be loaded: %r' % e, {'chk': 'none'}, repr(e), 'module loads')
+        return res
     rng = ctx.rng
     use_model = ctx.driver_ok and not oracle_only
     lines, after = [], []          # driver lines and what to do with each answer
@@ -462,163 +646,173 @@ def corr(ctx, oracle_only=False, scale=1):
     # ---------------- (A) translator validation
     nA = ctx.n(300, 20000) * scale
     for sh in SHAPES:
-        d = desc(SF, sh)
-        ars = [1.000001, 1.001, 1.5, 2.0, 10.0, 100.0]
-        ars += [math.exp(rng.uniform(math.log(1.000001), math.log(100.0))) for _ in range(nA // 2)]
-        ars += [rng.uniform(1.0001, 100.0) for _ in range(nA // 2)]
-        arr = np.array(ars)
-        impl = np.column_stack([np.atleast_2d(d._normalRadii(arr.copy())), d._eqRadius(arr.copy()),
-                                d._thermoFactor(arr.copy()), d._kineticFactor(arr.copy())])
-        mins = [float(getattr(d, m)) for m in MINS]
-        for a in ars:
-            res.case(('A', sh, a), True)
-        res.count('A:' + sh, len(ars))
-        if len(res.samples) < 1:
-            res.sample({'part': 'A', 'shape': sh, 'ar': ars[7], 'r0 r1 r2 eqRadius thermo kinetic': impl[7].tolist()})
-        if use_model:
-            lines.append('c15.gen %d %s' % (SID[sh], enc_list(ars))); after.append(('gen', sh, ars, impl))
-            lines.append('c15.mins %d' % SID[sh]); after.append(('mins', sh, mins))
+        with guard('inner-formulas:' + sh, {'chk': 'none', 'shape': sh}):
+            d = desc(SF, sh)
+            ars = [1.000001, 1.001, 1.5, 2.0, 10.0, 100.0]
+            ars += [math.exp(rng.uniform(math.log(1.000001), math.log(100.0))) for _ in range(nA // 2)]
+            ars += [rng.uniform(1.0001, 100.0) for _ in range(nA // 2)]
+            arr = np.array(ars)
+            impl = np.column_stack([np.atleast_2d(d._normalRadii(arr.copy())), d._eqRadius(arr.copy()),
+                                    d._thermoFactor(arr.copy()), d._kineticFactor(arr.copy())])
+            mins = [float(getattr(d, m)) for m in MINS]
+            for a in ars:
+                res.case(('A', sh, a), True)
+            res.count('A:' + sh, len(ars))
+            if len(res.samples) < 1:
+                res.sample({'part': 'A', 'shape': sh, 'ar': ars[7], 'r0 r1 r2 eqRadius thermo kinetic': impl[7].tolist()})
+            if use_model:
+                lines.append('c15.gen %d %s' % (SID[sh], enc_list(ars))); after.append(('gen', sh, ars, impl))
+                lines.append('c15.mins %d' % SID[sh]); after.append(('mins', sh, mins))
 
     # ---------------- (B) wrappers
     nB = ctx.n(500, 60000) * scale
     for i in range(nB):
         c = gen_wrapper_case(rng)
-        try:
+        with guard('wrapper:%s:%s' % (c['shape'], c['fn']), {'chk': 'wrapper', 'args': c}):
             out, unchanged, flat_in, flat_after = run_wrapper(SF, c)
-        except Exception as e:
-            res.violate('wrapper-raises:%s:%s' % (c['shape'], c['fn']), 'public function raised %r' % e, {'chk': 'wrapper', 'args': c})
-            continue
-        nontriv = bool(np.any(flat_in > 1))
-        res.case(('B', c['shape'], c['fn'], c['container'], tuple(repr(v) for v in c['vals'])), nontriv)
-        res.count('B:container:' + c['container']); res.count('B:fn:' + c['fn'])
-        res.count('B:has-below-1' if np.any(flat_in < 1) else 'B:all>=1')
-        if len(res.samples) < 2:
-            res.sample({'part': 'B', **c, 'output': out.tolist()})
-        apply_check(res, SF, 'wrapper', c)
-        if use_model:
-            if c['fn'] == 'normalRadii':
-                lines.append('c15.radii %d %s' % (SID[c['shape']], enc_list(flat_in)))
-            else:
-                lines.append('c15.wrap %d %d %s' % (SID[c['shape']], WRAP.index(c['fn']), enc_list(flat_in)))
-            after.append(('wrap', c, out, flat_after))
+            nontriv = bool(np.any(flat_in > 1))
+            res.case(('B', c['shape'], c['fn'], c['container'], tuple(repr(v) for v in c['vals'])), nontriv)
+            res.count('B:container:' + c['container']); res.count('B:fn:' + c['fn'])
+            res.count('B:has-below-1' if np.any(flat_in < 1) else 'B:all>=1')
+            if len(res.samples) < 2:
+                res.sample({'part': 'B', **c, 'output': out.tolist()})
+            apply_check(res, guard, SF, 'wrapper', c)
+            if use_model:
+                if c['fn'] == 'normalRadii':
+                    ln = 'c15.radii %d %s' % (SID[c['shape']], enc_list(flat_in))
+                else:
+                    ln = 'c15.wrap %d %d %s' % (SID[c['shape']], WRAP.index(c['fn']), enc_list(flat_in))
+                lines.append(ln); after.append(('wrap', c, out, flat_after))
 
-    # ---------------- (C) bisection
-    nC = ctx.n(300, 30000) * scale
+    # ---------------- (C) public findRcrit after setter histories
+    nC = ctx.n(330, 30000) * scale
+    try:
+        load_pp(); pp_ok = True
+    except Exception as e:
+        pp_ok = False
+        guard.errors.append({'what': 'import kawin.precipitation (PrecipitateParameters route)', 'case': None, 'traceback': traceback.format_exc()[-1500:]})
+    npp = 0
     for i in range(nC):
-        c = gen_bisect_case(rng)
-        sf, r, calls = run_bisect(SF, c)
-        iters = len(calls) - 3
-        res.case(('C',) + tuple(sorted(c.items())), iters > 0)
-        res.count('C:kind%d' % c['kind']); res.count('C:' + c['shape'])
-        res.count('C:fallback' if iters >= 100 else 'C:converged')
-        Rs, tol = c['Rs'], c['tol']
-        fm = [R / (Rs * v) - 1 for R, v in calls]
-        res.count('C:bracketed' if fm[0] * fm[1] < 0 else 'C:root-at-Rs' if fm[0] == 0 else 'C:not-bracketed')
-        if len(res.samples) < 3:
-            res.sample({'part': 'C', **c, 'r': r, 'iterations': iters})
-        apply_check(res, SF, 'bisect', c)
-        if use_model:
-            near = any(abs(abs(f) - tol) <= 1e-9 * tol + 1e-13 for f in fm[2:])
-            lines.append('c15.bisect %d %d %s %s %s %s %s %s' % (SID[c['shape']], c['kind'], f2b(c['p0']), f2b(c['p1']), f2b(c['p2']),
-                                                               f2b(tol), f2b(Rs), f2b(c['Rmax'])))
-            after.append(('bisect', c, r, iters, near, calls))
-        res.traces += 1
-    # scalar aspect ratio: closed form
-    for i in range(ctx.n(60, 3000) * scale):
-        sh = rng.choice(SHAPES)
-        ar = rng.choice([0.5, 1.0, 1.0 + 1e-9, 2.0, 2.7, 13.0, 100.0, math.exp(rng.uniform(0, math.log(100)))])
-        Rs = 10 ** rng.uniform(-10, -8)
-        c = {'shape': sh, 'kind': 0, 'p0': ar, 'p1': 0.0, 'p2': 1.0, 'tol': 1e-3, 'Rs': Rs, 'Rmax': 10 * Rs, 'scalar_ar': True}
-        res.case(('Cs', sh, ar, Rs), ar > 1)
-        res.count('C:scalar-aspect')
-        apply_check(res, SF, 'bisect', c)
-        if use_model:
-            sf, r, _ = run_bisect(SF, c)
-            lines.append('c15.rscalar %d %s %s' % (SID[sh], f2b(ar), f2b(Rs))); after.append(('rscalar', c, r))
+        c = gen_hist_case(rng, allow_pp=pp_ok and npp < ctx.n(25, 1500))
+        npp += c['ctor'][0] == 'pp'
+        case = {'chk': 'hist', 'args': c}
+        with guard('findRcrit-after-history', case):
+            sf, r, visited, shape, spec = run_history(SF, c)
+            seq = hist_kind(c)
+            iters = (len(visited) - 3) if visited is not None else 0
+            res.case(('C', json.dumps(c, sort_keys=True)), spec[0] == 'F' and iters > 0)
+            res.count('C:ctor:' + c['ctor'][0]); res.count('C:ops:%d' % len(c['ops'])); res.count('C:last:' + shape)
+            res.count('C:last-spec:' + ('function' if spec[0] == 'F' else 'scalar'))
+            if len(seq) > 1:
+                res.count('C:transition:%s->%s' % (seq[-2], seq[-1]))
+            if spec[0] == 'F':
+                res.count('C:search:' + ('closed-form(!)' if len(visited) < 3 else 'fallback' if iters >= 100 else 'converged'))
+            if len(res.samples) < 3:
+                res.sample({'part': 'C', **c, 'r': r, 'iterations': iters})
+            res.traces += 1
+            if use_model:
+                near = False
+                if visited is not None and len(visited) >= 3:
+                    Rs, tol = c['Rs'], c['tol']
+                    fm = [float(R) / (Rs * float(sf.thermoFactor(float(R)))) - 1 for R in visited]
+                    near = any(abs(abs(f) - tol) <= 1e-9 * tol + 1e-13 for f in fm[2:])
+                    res.count('C:bracketed' if fm[0] * fm[1] < 0 else 'C:root-at-Rs' if fm[0] == 0 else 'C:not-bracketed')
+                lines.append(enc_hist(c)); after.append(('hist', c, r, visited, shape, spec, near))
+        apply_check(res, guard, SF, 'hist', c)
 
     # ---------------- model answers
     if use_model:
-        ans = vlib.run_driver(PROP, lines)
-        for a, what in zip(ans, after):
-            t = Toks(a)
-            if not t.ok:
-                res.disagree('model error ' + str(t.err), what[1] if isinstance(what[1], dict) else what[1:3], 'ok', a); continue
-            if what[0] == 'gen':
-                _, sh, ars, impl = what
-                m = np.array(t.flts()).reshape(len(ars), 6)
-                for j, col in enumerate(['normalRadii[0]', 'normalRadii[1]', 'normalRadii[2]', '_eqRadius', '_thermoFactor', '_kineticFactor']):
-                    bad = [i for i in range(len(ars)) if not close(impl[i, j], m[i, j], 1e-9)]
-                    if bad:
-                        i = bad[0]
-                        res.disagree('generated def %s_%s' % (sh, col), {'shape': sh, 'ar': ars[i]}, float(impl[i, j]), float(m[i, j]))
-            elif what[0] == 'mins':
-                _, sh, mins = what
-                m = t.flts()
-                if not vlib.all_close(mins, m, 1e-12):
-                    res.disagree('generated Min constants', {'shape': sh}, mins, m)
-            elif what[0] == 'wrap':
-                _, c, out, flat_after = what
-                marr, msc, mafter = t.flts(), t.flts(), t.flts()
-                if not vlib.all_close(out, marr, 1e-9):
-                    res.disagree('wrapper array call', c, out.tolist(), marr)
-                if not vlib.all_close(marr, msc, 0.0):
-                    res.disagree('model: array call != scalar calls', c, marr, msc)
-                if not vlib.all_close(flat_after, mafter, 0.0):
-                    res.disagree('caller\'s array after the call', c, flat_after.tolist(), mafter)
-            elif what[0] == 'bisect':
-                _, c, r, iters, near, calls = what
-                fb, mit, mr = t.bool(), t.nat(), t.flt()
-                if (fb != (iters >= 100)) or mit != iters or not close(mr, r, 1e-12):
-                    if near:
-                        res.near_tie_skipped += 1
-                    else:
-                        res.disagree('_findRcrit (fallback, iterations, result)', c, [iters >= 100, iters, r], [fb, mit, mr])
-            elif what[0] == 'rscalar':
-                _, c, r = what
-                if not close(t.flt(), r, 1e-12):
-                    res.disagree('_findRcritScalar', c, r, a)
+        ans = None
+        with guard('model-driver', {'chk': 'none'}):
+            ans = vlib.run_driver(PROP, lines)
+        for a, what in zip(ans or [], after):
+            with guard('model-answer:' + what[0], {'chk': 'none', 'line': what[0]}):
+                t = Toks(a)
+                if not t.ok:
+                    res.disagree('model error ' + str(t.err), what[1] if isinstance(what[1], dict) else what[1:3], 'ok', a); continue
+                if what[0] == 'gen':
+                    _, sh, ars, impl = what
+                    m = np.array(t.flts()).reshape(len(ars), 6)
+                    for j, col in enumerate(['normalRadii[0]', 'normalRadii[1]', 'normalRadii[2]', '_eqRadius', '_thermoFactor', '_kineticFactor']):
+                        bad = [i for i in range(len(ars)) if not close(impl[i, j], m[i, j], 1e-9)]
+                        if bad:
+                            i = bad[0]
+                            res.disagree('generated def %s_%s' % (sh, col), {'shape': sh, 'ar': ars[i]}, float(impl[i, j]), float(m[i, j]))
+                elif what[0] == 'mins':
+                    _, sh, mins = what
+                    m = t.flts()
+                    if not vlib.all_close(mins, m, 1e-12):
+                        res.disagree('generated Min constants', {'shape': sh}, mins, m)
+                elif what[0] == 'wrap':
+                    _, c, out, flat_after = what
+                    marr, msc, mafter = t.flts(), t.flts(), t.flts()
+                    if not vlib.all_close(out, marr, 1e-9):
+                        res.disagree('wrapper array call', c, out.tolist(), marr)
+                    if not vlib.all_close(marr, msc, 0.0):
+                        res.disagree('model: array call != scalar calls', c, marr, msc)
+                    if not vlib.all_close(flat_after, mafter, 0.0):
+                        res.disagree('caller\'s array after the call', c, flat_after.tolist(), mafter)
+                elif what[0] == 'hist':
+                    _, c, r, visited, shape, spec, near = what
+                    msearch, mfb, mit, mr, mshape = t.tok(), t.bool(), t.nat(), t.flt(), t.nat()
+                    if mshape != SID[shape] or (msearch == 'B') != (spec[0] == 'F'):
+                        res.disagree('model bookkeeping: last shape / last specification', c, [shape, spec[0]], [mshape, msearch])
+                    elif spec[0] == 'F':
+                        impl_search = 'B' if len(visited) >= 3 else 'S'
+                        iters = len(visited) - 3
+                        if impl_search != msearch:
+                            res.disagree('which search the public findRcrit runs after this history (S closed form / B bisection)', c,
+                                         {'search': impl_search, 'aspect-ratio evaluations': len(visited), 'r': r}, {'search': msearch, 'r': mr})
+                        elif (mfb != (iters >= 100)) or mit != iters or not close(mr, r, 1e-12):
+                            if near:
+                                res.near_tie_skipped += 1
+                            else:
+                                res.disagree('findRcrit (fallback, iterations, result)', c, [iters >= 100, iters, r], [mfb, mit, mr])
+                    elif not close(mr, r, 1e-12):
+                        res.disagree('findRcrit, constant aspect ratio', c, r, mr)
 
     # ---------------- (D) direct oracle on grids
     g = fine_grid(ctx.n(400, 100000) * scale)
     below = [0.999999999, 0.5, 0.0, -3.0]
     for sh in SHAPES:
         ars = np.concatenate([g, [0.5, 0.0, 1.0]])
-        apply_check(res, SF, 'axes', {'shape': sh, 'ars': ars.tolist()}, short={'shape': sh, 'ars': 'fine_grid'})
-        apply_check(res, SF, 'at_one', {'shape': sh, 'below': below})
+        apply_check(res, guard, SF, 'axes', {'shape': sh, 'ars': ars.tolist()}, short={'shape': sh, 'ars': 'fine_grid'})
+        apply_check(res, guard, SF, 'at_one', {'shape': sh, 'below': below})
         for fn in WRAP + ['normalRadii']:
             for k in [9] + [k for k in KGRID[5:] if k != 9]:
-                apply_check(res, SF, 'continuity', {'shape': sh, 'fn': fn, 'k': k})
+                apply_check(res, guard, SF, 'continuity', {'shape': sh, 'fn': fn, 'k': k})
                 res.case(('D-cont', sh, fn, k), True)
         res.count('D:continuity-probes', 4 * len(KGRID[5:]))
         if sh in ('needle', 'plate'):
             for fn in WRAP:
-                apply_check(res, SF, 'monotone', {'shape': sh, 'fn': fn, 'grid': g.tolist()}, short={'shape': sh, 'fn': fn, 'grid': 'fine_grid'})
+                apply_check(res, guard, SF, 'monotone', {'shape': sh, 'fn': fn, 'grid': g.tolist()}, short={'shape': sh, 'fn': fn, 'grid': 'fine_grid'})
                 res.case(('D-mono', sh, fn, len(g)), True)
         res.count('D:grid-points', len(g))
     nQ = ctx.n(20, 1500) * scale
     for sh in ('needle', 'plate', 'cuboid'):
         for ar in [1.0 + 1e-6, 1.001, 2.0, 100.0] + [math.exp(rng.uniform(0.0, math.log(100.0))) for _ in range(nQ)]:
-            apply_check(res, SF, 'quad', {'shape': sh, 'ar': ar})
+            apply_check(res, guard, SF, 'quad', {'shape': sh, 'ar': ar})
             res.case(('D-quad', sh, ar), True)
             res.count('D:quadrature' if sh != 'cuboid' else 'D:cuboid-geometry')
     # ShapeFactor (function of radius) delegates to the description with ar(R); argument arrays untouched
     for sh in SHAPES:
-        sf = SF.ShapeFactor()
-        ident = lambda R: R                      # aspect ratio = the radius array itself (same object)
-        sf.setPrecipitateShape(CLS_NAME[sh], ident)
-        R = np.array([0.25, 0.75, 1.0, 1.5, 4.0, 60.0])
-        R0 = R.copy()
         for fn in WRAP + ['normalRadii']:
-            v = getattr(sf, fn)(R)
-            w = getattr(sf.description, fn)(R0.copy())
-            if not np.array_equal(np.asarray(v), np.asarray(w)):
-                res.violate('shapefactor-delegation:%s:%s' % (sh, fn), 'ShapeFactor.%s(R) differs from description.%s(aspectRatio(R))' % (fn, fn),
-                            {'chk': 'none', 'shape': sh}, np.asarray(v).tolist(), np.asarray(w).tolist())
-            if not np.array_equal(R, R0):
-                res.violate('argument-modified:radius-array', 'ShapeFactor.%s(R) with aspectRatio = identity wrote into the radius array' % fn,
-                            {'chk': 'none', 'shape': sh, 'fn': fn}, R.tolist(), R0.tolist())
-                R = R0.copy()
-            res.case(('D-sf', sh, fn), True)
+            with guard('shapefactor-delegation:%s:%s' % (sh, fn), {'chk': 'none', 'shape': sh, 'fn': fn}):
+                sf = SF.ShapeFactor()
+                ident = lambda R: R                      # aspect ratio = the radius array itself (same object)
+                sf.setPrecipitateShape(CLS_NAME[sh], ident)
+                R = np.array([0.25, 0.75, 1.0, 1.5, 4.0, 60.0])
+                R0 = R.copy()
+                v = getattr(sf, fn)(R)
+                w = getattr(sf.description, fn)(R0.copy())
+                if not np.array_equal(np.asarray(v), np.asarray(w)):
+                    res.violate('shapefactor-delegation:%s:%s' % (sh, fn), 'ShapeFactor.%s(R) differs from description.%s(aspectRatio(R))' % (fn, fn),
+                                {'chk': 'none', 'shape': sh}, np.asarray(v).tolist(), np.asarray(w).tolist())
+                if not np.array_equal(R, R0):
+                    res.violate('argument-modified:radius-array', 'ShapeFactor.%s(R) with aspectRatio = identity wrote into the radius array' % fn,
+                                {'chk': 'none', 'shape': sh, 'fn': fn}, R.tolist(), R0.tolist())
+                res.case(('D-sf', sh, fn), True)
+    guard.finish()
     return res
 
 
@@ -632,6 +826,7 @@ def replay(ctx, entry):
     c = v['case']
     SF = load()
     name = c.get('chk')
+    hits = []
     if name not in CHECKS:
         r = corr(vlib.Ctx(PROP, entry.get('tier', 'quick'), entry.get('seed', 0)), oracle_only=True)
         hits = [x for x in r.violations if x['key'] == v['key']]
@@ -641,7 +836,12 @@ def replay(ctx, entry):
             args['ars'] = np.concatenate([fine_grid(400), [0.5, 0.0, 1.0]]).tolist()
         if args.get('grid') == 'fine_grid':
             args['grid'] = fine_grid(400).tolist()
-        hits = [{'key': k, 'what': w, 'observed': o, 'required': q} for k, w, o, q in CHECKS[name](SF, args)]
+        try:
+            hits = [{'key': k, 'what': w, 'observed': o, 'required': q} for k, w, o, q in CHECKS[name](SF, args)]
+        except Exception as e:
+            if not raised_in_impl(e):
+                raise
+            hits = [{'key': 'raises:' + name, 'what': 'the code under test raised %r' % e, 'observed': repr(e), 'required': 'no exception'}]
     for x in hits:
         print('  ', x['key'], x['what'], x.get('observed'), x.get('required'))
     return not hits
